@@ -1,10 +1,26 @@
 use pdfmon::run::{Run, Tier};
 
+#[global_allocator]
+static ALLOC: pdfmon::mon::CountingAlloc = pdfmon::mon::CountingAlloc;
+
 fn main() {
     let args: Vec<String> = std::env::args().collect();
     if args.len() < 3 {
         eprintln!("usage: pdfmon <Cxx> <quick|thorough>");
         std::process::exit(2);
+    }
+    if args[1] == "--worker" {
+        // pdfmon --worker <Cxx> <tier> <seed>
+        let tier = if args[3] == "quick" { Tier::Quick } else { Tier::Thorough };
+        let seed: u64 = args[4].parse().unwrap_or(1);
+        pdfmon::panicmon::install();
+        match args[2].as_str() {
+            "C01" => pdfmon::sup::worker_loop(pdfmon::props::c01::worker(tier, seed)),
+            "C14" => pdfmon::sup::worker_loop(pdfmon::props::c14::worker(tier, seed)),
+            "C20" => pdfmon::sup::worker_loop(pdfmon::props::c20::worker(tier, seed)),
+            _ => std::process::exit(2),
+        }
+        return;
     }
     let prop = args[1].as_str();
     let tier = match args[2].as_str() { "quick" => Tier::Quick, "thorough" => Tier::Thorough, _ => { eprintln!("bad tier"); std::process::exit(2) } };
